@@ -138,6 +138,19 @@ def trimHex (s : String) : String :=
   let t := (s.toList.dropWhile (· == '0'))
   if t.isEmpty then "0" else String.ofList t
 
+mutual
+/-- a statement list of the fragment: expression statements and `if` statements (an absent else = `_`) -/
+partial def toSts : List SExp → Option DS.Frag.Sts
+  | [] => some .nil
+  | .list [.atom "if", c, .list (.atom "seq" :: a), els] :: rest => do
+    let b ← (match els with
+      | .atom "_" => some DS.Frag.Sts.nil
+      | .list (.atom "seq" :: b) => toSts b
+      | _ => none)
+    pure (.ite (← toF c) (← toSts a) b (← toSts rest))
+  | x :: rest => do pure (.expr (← toF x) (← toSts rest))
+end
+
 def binTok : BinOp → String
   | .add => "add" | .sub => "sub" | .mul => "mul" | .div => "div" | .mod => "mod" | .pow => "pow"
   | .nullCoalescing => "nullCoalescing" | .lt => "comp.lt" | .le => "comp.le" | .eq => "comp.eq" | .ne => "comp.ne"
@@ -157,6 +170,8 @@ def instrTok : Instr → String
   | .pushLast => "push.last"
   | .logicAnd => "and"
   | .halt => "halt"
+  | .blockPush => "block.push"
+  | .blockPop => "block.pop"
   | .markDetail _ _ => "mark.detail=d_"        -- the extent operands are the source positions: compared as a placeholder
   | .ldD n => "ld.d=s" ++ hx n
   | .store n => "store=s" ++ hx n
@@ -174,8 +189,8 @@ def fragcLine (toks : List String) : String :=
           -- a statement sequence of fragment expressions
           (match sx with
            | .list (.atom "seq" :: stmts) =>
-             (match stmts.mapM toF with
-              | some es => "[ " ++ " ".intercalate ((DS.Frag.compileS es ++ [Instr.halt]).map instrTok) ++ " ]"
+             (match toSts stmts with
+              | some ss => "[ " ++ " ".intercalate ((DS.Frag.compileSts ss ++ [Instr.halt]).map instrTok) ++ " ]"
               | none => "not-in-fragment")
            | _ => "not-in-fragment"))
      | _ => "bad-ast")
